@@ -69,6 +69,11 @@ def generate(tier, seed):
         lines += ["NEW", "EVAL (setq a '(1 2)) (setq b 5) (setq c '((k . v)))", "EVAL " + p, "EVAL " + p, "EVAL " + p, "DUMP a b c"]
     for c in macro_cases():
         lines += c
+    for first in ["nil", "'()", "acc0", "(cdr '(1))"]:
+        for call in ["(append %s la lb)", "(append %s la lb lc)", "(append %s nil la lb)", "(append %s la nil lb)", "(append %s '(q r) lb)", "(append %s la (list 9))", "(append %s la 'tail)"]:
+            e = call % first
+            lines += ["NEW", "EVAL (setq acc0 nil) (setq la (list 1 2)) (setq lb (list 3)) (setq lc '(4 5 6)) (setq keep la)", "EVAL " + e, "EVAL (list la lb lc acc0 (eq keep la))",
+                      "EVAL " + e, "EVAL (list la lb lc acc0)", "EVAL (defun fa () %s) (list (fa) (fa) (fa))" % e.replace("la", "'(a b)").replace("lb", "'(c)")]
     for loop in ["(dotimes (i 4) %s)", "(dolist (i '(0 1 2 3)) %s)", "(dotimes (i 3) (dotimes (j 2) %s))", "(let ((i 0)) (while (< i 4) %s (setq i (+ i 1))))"]:
         for keep in ["(setq acc (append acc (list i)))", "(setq acc (cons i acc))", "(setq acc (cons (list i 'x) acc))", "(puthash i i tb)", "(setq acc (cons (lambda () i) acc))",
                      "(if (equal i 0) (setq first (list i 'first)))", "(setq acc `(,i ,@acc))", "(setq acc (cons (format \"%d\" i) acc))"]:
